@@ -131,10 +131,14 @@ def computed_off(data: bytes) -> int:
     return len(s) - len(e.mf_content) + u.start + u.head
 
 
+DIRS = [0]
+
+
 def run_scenario(ctx, events, tids, counter, scn, files, roles):
     """files: list of envelope paths in the order given to the tool; roles: intended role (or NONE) per file."""
     d = ctx.tmp("c07")
-    outdir = d / "out"
+    DIRS[0] += 1
+    outdir = d / core.odd_name(DIRS[0])   # the output directory's name is the caller's choice
     outdir.mkdir()
     cfg = None
     if scn.get("kconfig"):
